@@ -170,6 +170,8 @@ ALWAYS_INLINE = {
     f"{P}.period_.Period.unit", f"{P}.period_.Period.start", f"{P}.period_.Period.size",
     f"{P}.period_.Period.eternity",
     f"{P}.helpers.unit_weights", f"{P}.helpers.unit_weight",
+    "openfisca_core.tracers.simple_tracer.SimpleTracer.stack", "openfisca_core.tracers.full_tracer.FullTracer.stack",
+    "openfisca_core.tracers.full_tracer.FullTracer.trees",
 }
 
 
